@@ -589,6 +589,9 @@ const unixToInternal = (1969*365 + 1969/4 - 1969/100 + 1969/400) * 86400
 
 func (ex *Exec) timeNow() Value {
 	tb := ex.tb
+	if ex.inInit > 0 {
+		return Struct{tb.Const(64, 0), tb.Const(64, uint64(ex.NowBase+unixToInternal)), (*Value)(nil)}
+	}
 	ex.nowCount++
 	sec := ex.newDraw(ex.occName("now"), 64)
 	lo := tb.Const(64, uint64(ex.NowBase))
@@ -677,4 +680,52 @@ func (ex *Exec) fmtValue(v Value, verb byte) Str {
 		}
 	}
 	return ex.mkStr("<val>")
+}
+
+// pack64 packs byte cells into 64-bit big-endian words.
+func (ex *Exec) pack64(b []Value) []*term.T {
+	tb := ex.tb
+	var out []*term.T
+	for i := 0; i < len(b); i += 8 {
+		var w *term.T
+		for j := i; j < i+8 && j < len(b); j++ {
+			x := b[j].(*term.T)
+			if w == nil {
+				w = x
+			} else {
+				w = tb.Concat(w, x)
+			}
+		}
+		out = append(out, tb.ZExt(w, 64))
+	}
+	return out
+}
+
+func init() {
+	// Stream cipher contract: out[i] = in[i] XOR KS_i(counter, key), keystream uninterpreted
+	// (the amd64 build of x/crypto/salsa20/salsa is assembly). Valid for len(in) <= 64
+	// (one block: the keystream does not depend on the data or on a block counter carry).
+	reg("golang.org/x/crypto/salsa20/salsa.XORKeyStream", func(ex *Exec, caller *frame, fn *ssa.Function, args []Value) Value {
+		out := args[0].(Slice).V
+		in := args[1].(Slice).V
+		if len(in) > 64 {
+			panic(ex.unsupported("salsa.XORKeyStream over more than one block"))
+		}
+		if len(out) < len(in) {
+			panic(ex.goPanicStr("index out of range (XORKeyStream dst too short)"))
+		}
+		cw := ex.pack64([]Value((*args[2].(*Value)).(Array)))
+		kw := ex.pack64([]Value((*args[3].(*Value)).(Array)))
+		tb := ex.tb
+		res := make([]*term.T, len(in))
+		for i := range in {
+			ua := append([]*term.T{tb.Const(64, uint64(i))}, cw...)
+			ua = append(ua, kw...)
+			res[i] = tb.Xor(in[i].(*term.T), tb.UF("salsa20.keystream", 8, ua...))
+		}
+		for i := range res {
+			out[i] = res[i]
+		}
+		return nil
+	})
 }
